@@ -150,6 +150,8 @@ def type_of(t, _depth=0):
         return 'obj:' + t[1]
     if k == 'op':
         n = t[1]
+        if n == 'REPB':
+            return type_of(t[2])
         if n == 'CAT':
             for sg in t[2:]:
                 ty = type_of(sg)
@@ -645,8 +647,8 @@ def mul(a, b):
     for x, y in ((a, b), (b, a)):
         if is_const(x) and isinstance(x[1], (bytes, str)) and is_const(y) and isinstance(y[1], int):
             return const(x[1] * y[1])
-        if is_const(x) and isinstance(x[1], (bytes, str)) and type_of(y) == 'int':
-            return ('op', 'REPB', x, y)
+        if is_const(x) and isinstance(x[1], (bytes, str)) and (type_of(y) in ('int', None)) and not is_const(y):
+            return ('op', 'REPB', x, y)          # repetition of a string: the other operand can only be a count
         if tag(x) in ('list', 'tuple') and is_const(y) and type(y[1]) is int and len(x[1]) * max(y[1], 0) <= 4096:
             return (x[0], x[1] * max(y[1], 0))
     return _MUL(a, b)
@@ -1169,7 +1171,7 @@ def hoist(t, _depth=0):
     """Canonical decision-tree form: Shannon expansion over the atomic predicates of all Phi conditions, in a fixed
     order; compound conditions (and/or/not) are decided by their atoms."""
     conds = phi_conditions(t)
-    if not conds or _depth > 24:
+    if not conds or _depth > 80:
         return t
     atoms = set()
     for c in conds:
